@@ -22,7 +22,8 @@ RULE = ("related pairs of addresses: the second is derived from the first by nar
         "Address with attached members (grouped: positive answers must be true); AddressAg member-in-member and "
         "member-in-group. judged = monitor evaluations at the tapped methods; distinct non-trivial = (method, classes, "
         "platform, relation, k of both sides, spelling forms)"
-        " Round 5: member line re-assigned then the old text asked; group address re-assigned to a plain address.")
+        " Round 5: member line re-assigned then the old text asked; group address re-assigned to a plain address."
+        " Rounds 6-7: non-contiguous members in NX-OS groups.")
 ASSUMPTIONS = ["a TypeError for non-contiguous members in 'in' is a refusal, not an answer",
                "group-in-group and group-in-member are not stated by the property and are not judged"]
 
